@@ -50,7 +50,7 @@ def tight_reference(u, present, fixed, ploidy):
 
 class Gen:
     """Everything observed at one generation."""
-    __slots__ = ("t", "n", "N", "ploidy", "count", "op", "opsite", "info", "present", "fixed1", "allfixed", "afreq", "offset")
+    __slots__ = ("t", "n", "N", "ploidy", "count", "op", "opsite", "info", "present", "fixed1", "allfixed", "afreq", "offset", "icls")
 
 
 class HistoryMonitor:
@@ -90,7 +90,7 @@ class HistoryMonitor:
         return False
 
     # ------------------------------------------------------------------ per generation
-    def observe(self, t, op, opsite, mat, ploidy, limits, afreqs, gsc, gun, offset):
+    def observe(self, t, op, opsite, mat, ploidy, limits, afreqs, gsc, gun, offset, icls=None):
         """
         mat     : integer allele matrix (phase, taxa, locus) of the population as stored by the library object
         limits  : {view: {"sc": (usl, lsl), "un": (usl, lsl)}}  reported limits (missing entries = call raised)
@@ -110,7 +110,7 @@ class HistoryMonitor:
         tol = self.tol(ploidy, offset)
         refu, refl = tight_reference(self.u, G.present, G.fixed1, ploidy)
         prev = self.gens[-1] if self.gens else None
-        ic0 = self.icls
+        G.icls = ic0 = icls or self.icls
 
         # ---- C10.lost on integer counts (once per generation; by induction "count 0 at t => count 0 at every t' > t"
         #      is the same as "count 0 at t-1 => count 0 at t" for every t, so the masks are those of the predecessor)
@@ -259,4 +259,4 @@ class HistoryMonitor:
         for X in ([E, G] if ancestor_first else [G, E]):
             if X.info.get((view, sc, kind), (None, False))[1]:
                 return self.attribute(X, view, sc, kind)
-        return G.opsite, self.icls
+        return G.opsite, G.icls
